@@ -229,6 +229,14 @@ Theorem C17_printed_fixed_is_rounded : forall q,
 Proof. exact printed_fixed_close. Qed.
 Print Assumptions C17_printed_fixed_is_rounded.
 
+(* ... and the printed value of a '10.2e' line is the quantity rounded to three significant digits (half a unit of
+   the third digit), whenever Fmt.ilog10 returns the decimal exponent of q ([sig_ok q], evaluated on every printed
+   value of every run) *)
+Theorem C17_printed_sci_is_rounded : forall q, ~ q == 0 -> sig_ok q = true ->
+  Qabs (printed KSci q - q) <= (1#2) * Qpow10 (ilog10 q - 2).
+Proof. exact sci_shown_close. Qed.
+Print Assumptions C17_printed_sci_is_rounded.
+
 (* ---- legacy src/hip_ra/HIP_RA.py: the part of its method that is the same volumetric computation ---- *)
 Theorem C17_legacy_common_part : forall W i,
   let l := legacy_common W i in let o := hip_out W i in
@@ -284,3 +292,5 @@ Example C17_example_legacy :
   | _ => False
   end.
 Proof. vm_compute. split; reflexivity. Qed.
+Example C17_example_sci : sig_ok (3880000000000000#1) = true /\ printed KSci (3884000000000000#1) == 3880000000000000#1.
+Proof. split; vm_compute; reflexivity. Qed.
